@@ -8,7 +8,6 @@ import (
 
 	"verif/engine/core"
 
-	_ "verif/checks/c19"
 )
 
 func main() {
